@@ -4,6 +4,7 @@ import Robsd.Gen.Arith
 import Robsd.Model.RegressLog
 import Robsd.Model.StepFile
 import Robsd.Model.StepNext
+import Robsd.Model.Report
 /-
   robsd_model: the executable models behind a line protocol.
   One request per line: `<component> <op> <args…>`; byte strings are hex
@@ -55,8 +56,52 @@ def intFun (s : String) : Nat → Int :=
   let l := if s == "-" then [] else (s.splitOn ",").filterMap (·.toInt?)
   fun j => l.getD j 0
 
+def kvOf (ws : List String) : List (String × String) :=
+  ws.filterMap fun w => match w.splitOn "=" with
+    | k :: v :: [] => some (k, v)
+    | _ => none
+
+def kvGet (kv : List (String × String)) (k : String) : String := ((kv.find? (·.1 == k)).map (·.2)).getD ""
+def optHex (s : String) : Option Bytes := if s == "!" || s == "" then none else some (hexArg s)
+def listOf (s : String) : List String := if s == "" || s == "-" then [] else if s == "." then [] else s.splitOn ","
+
+def reportOf (ws : List String) : String :=
+  let kv := kvOf ws
+  let g := kvGet kv
+  let mode : Report.Mode := match g "mode" with
+    | "robsd" => .robsd | "robsd-cross" => .cross | "robsd-ports" => .ports | "robsd-regress" => .regress | _ => .canvas
+  let logs : List (Bytes × Option Bytes) := (listOf (g "logs")).filterMap fun e => match e.splitOn ":" with
+    | n :: c :: [] => some (hexArg n, optHex c)
+    | _ => none
+  let e : Report.Env := {
+    mode := mode, hostname := hexArg (g "host"), canvasName := hexArg (g "canvas"), machine := hexArg (g "machine"),
+    target := optHex (g "target"), builddir := hexArg (g "builddir"),
+    logs := fun n => ((logs.find? (·.1 == n)).map (·.2)).getD none,
+    comment := optHex (g "comment"), tags := optHex (g "tags"),
+    cvsLogs := (listOf (g "cvs")).map optHex, packagesDiff := optHex (g "pkgdiff"),
+    suites := (listOf (g "suites")).map hexArg, quiet := (listOf (g "quiet")).map hexArg,
+    sizes := (listOf (g "sizes")).filterMap (fun e => match e.splitOn ":" with
+      | n :: a :: b :: [] => some (hexArg n, a.toNat?.getD 0, b.toNat?.getD 0)
+      | _ => none),
+    hasPrev := g "hasprev" == "1" }
+  match StepFile.parseFile (hexArg (g "steps")) with
+  | none => "1 -"
+  | some rows =>
+    match Report.generate e rows with
+    | none => "1 -"
+    | some out => s!"0 {toHex (cstr out)}"
+
 def handle (ws : List String) : String :=
   match ws with
+  | "report" :: rest => reportOf rest
+  | "fmt" :: "duration" :: d :: delta :: thr :: [] =>
+    toHex (Report.formatDurationDelta (d.toInt?.getD 0) (delta.toInt?.getD 0) (thr.toInt?.getD 0))
+  | "fmt" :: "size" :: n :: [] => toHex (Report.formatSize (n.toNat?.getD 0))
+  | "total" :: mode :: file :: [] =>
+    let m : Report.Mode := if mode == "robsd-regress" then .regress else .robsd
+    match StepFile.parseFile (hexArg file) with
+    | none => "fail"
+    | some rows => s!"{Report.totalDuration m rows}"
   | "stepnext" :: file :: [] =>
     match StepFile.stepNextCmd (hexArg file) with
     | (rc, some p) => s!"{rc} {p}"
